@@ -1,6 +1,7 @@
 package c03
 
 import (
+	"context"
 	"fmt"
 	"hash/fnv"
 	"math/rand"
@@ -15,11 +16,7 @@ import (
 	corev1 "k8s.io/api/core/v1"
 	"k8s.io/apimachinery/pkg/api/resource"
 	"k8s.io/apimachinery/pkg/types"
-	utilruntime "k8s.io/apimachinery/pkg/util/runtime"
 	"sigs.k8s.io/controller-runtime/pkg/reconcile"
-
-	"context"
-	"runtime/debug"
 
 	v1 "sigs.k8s.io/karpenter/pkg/apis/v1"
 	"sigs.k8s.io/karpenter/pkg/cloudprovider"
@@ -1020,18 +1017,14 @@ func poolLaunchable(e *world.Env, np *v1.NodePool) bool {
 
 func runStatic(r *mon.Report, tier string, idx, ord int, rng *rand.Rand) {
 	// In production a panic inside a workqueue.ParallelizeUntil worker is re-raised by HandleCrash and kills the
-	// process. Here it is recorded as a violation instead, so that the rest of the batch still runs.
-	prevCrash := utilruntime.ReallyCrash
-	utilruntime.ReallyCrash = false
-	prevHandlers := utilruntime.PanicHandlers
-	defer func() { utilruntime.ReallyCrash = prevCrash; utilruntime.PanicHandlers = prevHandlers }()
+	// process. Here it is recorded as a violation instead, so that the rest of the batch still runs. (Never
+	// restored: a worker's HandleCrash runs after its wg.Done(), i.e. possibly after the reconcile returned.)
+	defer time.Sleep(time.Millisecond) // let a straggling HandleCrash of the last step report into this case
 
 	yes := true
 	e := world.NewEnv(rng, test.OptionsFields{FeatureGates: test.FeatureGates{StaticCapacity: &yes}})
 	d := &stat{r: r, rng: rng, e: e, reported: map[string]bool{}, sig: map[string]bool{}, backlog: map[world.Request]bool{}, busy: map[string]bool{}}
-	utilruntime.PanicHandlers = append([]func(context.Context, any){func(_ context.Context, v any) {
-		d.reportPanic("a worker goroutine of the running controller", v, string(debug.Stack()))
-	}}, prevHandlers...)
+	setPanicSink(func(v any, stack string) { d.reportPanic("a worker goroutine of the running controller", v, stack) })
 	e.Apply(gen.NodeClass())
 	ccfg := gen.DefaultCatalogCfg()
 	ccfg.PUnavailable = 0.05
